@@ -390,7 +390,7 @@ pub fn run(tier: &str, seed: u64) -> i32 {
     }
     // ---- random structures with shrinking
     if violation.is_none() {
-        let cases = if tier == "quick" { 40_000 } else { 2_000_000 };
+        let cases = if tier == "quick" { 40_000 } else { 1_000_000 };
         let mut runner = crate::new_runner(seed, 0x14, cases);
         let r = runner.run(&sprog(), |p| {
             record(&p);
